@@ -98,7 +98,8 @@ def apply_forms(cx, N, nb):
 
 @harness("C07", "forms_in_rotated_basis",
          quick=[dict(N=2, nb=1, plane=None), dict(N=2, nb=2, plane=None)],
-         thorough=[dict(N=2, nb=2, plane=None)] + [dict(N=3, nb=1, plane=p) for p in ([0, 1], [0, 2], [1, 2])],
+         thorough=[dict(N=2, nb=2, plane=None), dict(N=3, nb=2, plane=None)] +
+                  [dict(N=3, nb=1, plane=p) for p in ([0, 1], [0, 2], [1, 2])],
          functions=[F_RED + ":RedfieldRelaxationTensor.transform", D + "relaxationtensor.py:RelaxationTensor.transform",
                     F_RED + ":RedfieldRelaxationTensor.apply", F_RED + ":RedfieldRelaxationTensor.convert_2_tensor"],
          bound="N=2: any S in O(2); N=3: plane rotations times column signs; both forms transformed by the real "
@@ -183,7 +184,7 @@ def propagation_forms(cx, N, L, Nt):
 
 
 @harness("C07", "td_converted_transform",
-         quick=[dict(N=2, nb=1)], thorough=[dict(N=2, nb=1), dict(N=2, nb=2)],
+         quick=[dict(N=2, nb=1), dict(N=3, nb=1)], thorough=[dict(N=2, nb=1), dict(N=2, nb=2), dict(N=3, nb=1), dict(N=3, nb=2)],
          functions=[F_TDR + ":TDRedfieldRelaxationTensor._implementation",
                     F_TDR + ":TDRedfieldRelaxationTensor._convert_operators_2_tensor",
                     F_TDR + ":TDRedfieldRelaxationTensor.transform",
